@@ -257,6 +257,51 @@ func (w *world) open() (err error) {
 	return nil
 }
 
+// legacy moves every k-th indexed block hash (from a random offset) out of its
+// hash-prefix sub-bucket into the root bucket of the index, where versions
+// before the sub-bucket layout kept all entries.  Returns how many were moved.
+func (w *world) legacy(k int) int {
+	if w.db == nil {
+		return 0
+	}
+	name, nb := headerfs.VerifIndexBucket()
+	moved := 0
+	off := w.r.Intn(k)
+	err := walletdb.Update(w.db.(*faultDB).DB, func(tx walletdb.ReadWriteTx) error {
+		root := tx.ReadWriteBucket(name)
+		if root == nil {
+			return fmt.Errorf("no index bucket")
+		}
+		for i, h := range w.bhdr {
+			if i%k != off {
+				continue
+			}
+			hash := h.BlockHash()
+			sub := root.NestedReadWriteBucket(hash[0:nb])
+			if sub == nil {
+				continue
+			}
+			v := sub.Get(hash[:])
+			if v == nil {
+				continue
+			}
+			val := append([]byte(nil), v...)
+			if err := sub.Delete(hash[:]); err != nil {
+				return err
+			}
+			if err := root.Put(hash[:], val); err != nil {
+				return err
+			}
+			moved++
+		}
+		return nil
+	})
+	if err != nil {
+		panic(fmt.Sprintf("storedrv: legacy layout: %v", err))
+	}
+	return moved
+}
+
 func (w *world) close() {
 	if w.db == nil {
 		return
@@ -523,6 +568,15 @@ func (g *gen) mutate() bool {
 	_, ftipH, err := w.fs.ChainTip()
 	if err != nil {
 		return false
+	}
+	// now and then: lay some index entries out the way older versions did
+	// (directly in the root bucket); no answer of the stores may change
+	if g.r.Intn(12) == 0 {
+		m := w.legacy(1 + g.r.Intn(4))
+		g.t.Line("legacy %d", m)
+		if m > 0 {
+			g.t.Hit("store.legacy-moved")
+		}
 	}
 	// arm a fault or a crash for this op?
 	armed := ""
